@@ -267,7 +267,59 @@ func (self *Node) makePrenodesForBinding(bind *syntax.ResolvedBinding,
 			refs[self.top.allNodes[ref.Id]] = struct{}{}
 		}
 	}
+	// Merges over the forks of a call whose mapping source is not known
+	// until run time can't be resolved until that source is available.
+	for _, ref := range findMergeSourceRefs(bind.Exp, nil) {
+		if rnode := self.top.allNodes[ref.Id]; rnode != nil {
+			if refs == nil {
+				refs = make(map[Nodable]struct{})
+			}
+			refs[rnode] = struct{}{}
+		}
+	}
 	return refs, fileRefs
+}
+
+// Find references to the sources of map calls which are merged over in the
+// given expression, where the merge does not otherwise specify a node to
+// get the forks from.
+func findMergeSourceRefs(exp syntax.Exp, refs []*syntax.RefExp) []*syntax.RefExp {
+	switch exp := exp.(type) {
+	case *syntax.ArrayExp:
+		for _, e := range exp.Value {
+			refs = findMergeSourceRefs(e, refs)
+		}
+	case *syntax.MapExp:
+		for _, e := range exp.Value {
+			refs = findMergeSourceRefs(e, refs)
+		}
+	case *syntax.SplitExp:
+		refs = findMergeSourceRefs(exp.Value, refs)
+	case *syntax.DisabledExp:
+		refs = findMergeSourceRefs(exp.Value, refs)
+	case *syntax.MergeExp:
+		if exp == nil {
+			return refs
+		}
+		if exp.ForkNode == nil {
+			src := exp.MergeOver
+			if set, ok := src.(*syntax.MapCallSet); ok {
+				src = set.Master
+			}
+			switch src := src.(type) {
+			case *syntax.RefExp:
+				if src.Kind == syntax.KindCall {
+					refs = append(refs, src)
+				}
+			case *syntax.BoundReference:
+				if src.Exp != nil && src.Exp.Kind == syntax.KindCall {
+					refs = append(refs, src.Exp)
+				}
+			}
+		}
+		refs = findMergeSourceRefs(exp.Value, refs)
+	}
+	return refs
 }
 
 func (self *Node) makePrenodes() {
